@@ -151,3 +151,76 @@ def _replay(f):
     h = tuple(c == 'S' for c in f['input']['history'])
     opts = {k: v for k, v in f['input']['options'].items() if k != 'ips'}
     return one_case(h, opts) is None
+
+
+# ---------------------------------------------------------------------------------------------------------------------
+# the lines the helper writes are API commands: whatever --neighbor options it was given, the REAL v6 dispatcher must
+# route every line to exactly the neighbors named (all of them for none / '*'), never refuse it for its selector
+_NEIGHBORS = ['10.0.0.2', '10.0.0.3', '10.0.0.4']
+
+
+class _SelReactor:
+    """the two things the dispatcher asks a reactor: the peer names of a service, and the neighbor of a name"""
+
+    def __init__(self):
+        from exabgp.configuration.configuration import Configuration
+
+        text = 'process hc { run /bin/true; encoder json; }\n' + ''.join(
+            f'neighbor {a} {{ router-id 1.2.3.4; local-address 10.0.0.1; local-as 65000; peer-as 6500{k}; family {{ ipv4 unicast; }} api {{ processes [ hc ]; }} }}\n' for k, a in enumerate(_NEIGHBORS)
+        )
+        self.configuration = Configuration([text], text=True)
+        if not self.configuration.reload():
+            raise RuntimeError(f'harness: configuration refused: {self.configuration.error}')
+
+    def peers(self, service=''):
+        return list(self.configuration.neighbors.keys())
+
+    def neighbor(self, name):
+        return self.configuration.neighbors.get(name)
+
+    def neighbor_name(self, name):
+        return name
+
+    def neighbor_ip(self, name):
+        return str(self.configuration.neighbors[name].session.peer_address)
+
+    def __getattr__(self, name):
+        raise AttributeError(name)
+
+
+def _selector_case(neighbors):
+    from ipaddress import ip_address
+    from exabgp.reactor.api.dispatch import dispatch_v6
+
+    opts = {'neighbors': [ip_address(n) if n != '*' else n for n in neighbors] if neighbors else None, 'rise': 1, 'fall': 1}
+    inp = {'neighbors': list(neighbors)}
+    rounds, exit_lines = run([True, False], opts)
+    lines = [ln for r in rounds for ln in r] + exit_lines
+    if not lines:
+        raise RuntimeError('harness: the helper wrote nothing')
+    reactor = _SelReactor()
+    want = set(reactor.peers()) if (not neighbors or '*' in neighbors) else {n for n in reactor.peers() if any(f'neighbor {a} ' in n + ' ' for a in neighbors)}
+    for ln in lines:
+        try:
+            _handler, peers, _rest = dispatch_v6(ln, reactor, 'hc')
+        except Exception as e:  # noqa
+            return {'what': f'a line written by the helper is refused by the API dispatcher ({type(e).__name__}: {str(e)[:80]}): {ln!r}', 'input': inp}
+        if set(peers) != want:
+            return {'what': f'a line written by the helper reaches {sorted(str(p)[:30] for p in peers)} instead of the {len(want)} neighbors named: {ln!r}', 'input': inp}
+    return None
+
+
+@bounded('C20', 'selector-of-written-lines')
+def selector_of_written_lines(tier, seed):
+    cases = [[], ['*'], ['10.0.0.2'], ['10.0.0.2', '10.0.0.3'], ['10.0.0.3', '10.0.0.4', '10.0.0.2']]
+    fails = []
+    for nb in cases:
+        f = _selector_case(nb)
+        if f:
+            fails.append(f)
+    return {'evaluations': len(cases), 'distinct_nontrivial': len(cases), 'bound': 'no / one / two / three --neighbor options and the wildcard: every line written over an up-down-exit history through the real v6 API dispatcher of a three-neighbor configuration', 'rule': 'one case = one list of --neighbor options', 'samples': [{'neighbors': ['10.0.0.2', '10.0.0.3']}], 'failures': fails}
+
+
+@replayer('C20', 'selector-of-written-lines')
+def _replay_selector(f):
+    return _selector_case(f['input']['neighbors']) is None
